@@ -114,6 +114,9 @@ def subgraph_edge_source(ctx, prog, flows, rid, consequence):
 def run(ctx):
     prog = ctx.prog
     flows = Flows(prog)
+    from graphrules import no_edge_identity_collections
+
+    no_edge_identity_collections(ctx, prog, "R-C15-6", ("graph::convert", "graph::subgraph"), "the derived graph loses parallel edges (reverse twice no longer restores the graph, the induced subgraph misses stored edges)")
     effects = Effects(prog, flows)
     for a in (ASSUME_RUSTC, ASSUME_PATHS, ASSUME_AT):
         ctx.assume(a)
